@@ -698,7 +698,11 @@ class ExprMixin:
         # objects: go through the element-equality spec hook of the schema
         eqf = self.elem_eq_term(ek)
         if eqf is None:
-            raise Unsupported(f'`in` on list of {ek} without eq_view')
+            rc = self.reg.real_class(ek.name)
+            if rc is not None and self.static_lookup(rc, '__eq__') is None:
+                eqf = (lambda v: v.t)      # no __eq__: objects compare by identity
+            else:
+                raise Unsupported(f'`in` on list of {ek} without eq_view')
         it = eqf(item)
         el = self.list_elems(lv)
         j = z3.Int('j!in')
